@@ -30,7 +30,7 @@ COMPONENTS = {
     'real': ['singlecellmultiomics.molecule.MoleculeIterator', 'Molecule.can_be_yielded/add_fragment', 'NlaIIIFragment', 'NlaIIIMolecule', 'pysam.AlignedSegment'],
     'stub': [],
 }
-REQUIRED_PROBES = ['same_coordinates_on_two_contigs', 'abandoned_pass_then_full_pass', 'single_end_long_reads', 'plain_chained_fragments', 'ejection_popped', 'non_prefix_pop_list', 'final_flush_nonempty', 'duplicate_arrives_after_ejectable_unrelated']
+REQUIRED_PROBES = ['fragment_at_coordinate_0', 'same_coordinates_on_two_contigs', 'abandoned_pass_then_full_pass', 'single_end_long_reads', 'plain_chained_fragments', 'ejection_popped', 'non_prefix_pop_list', 'final_flush_nonempty', 'duplicate_arrives_after_ejectable_unrelated']
 EXHAUSTIVE_NOTE = 'check_eject_every is enumerated exhaustively (None, 0..n) per sampled input and pooling method; inputs and cache sizes are sampled'
 
 
@@ -57,16 +57,17 @@ def generate(seed, tier):
     n_target = weighted(w, [(w.randint(1, 6), 2), (w.randint(7, 25), 5), (w.randint(26, 60), 3)])
     frags = []
     mol = 0
+    origin = w.random() < 0.25      # a cluster touching coordinate 0 of the contig
     for ctg in range(ncontig):
-        pos = w.randint(cache, 2 * cache)
+        pos = w.randint(cache, 2 * cache) if not (origin and ctg == 0) else -3
         while len(frags) < n_target * (ctg + 1) // ncontig:
             gap = w.choice([3, 30, 30, cache // 2, cache // 2 + 1, cache, 3 * cache, w.randint(1, cache)])
-            pos += gap
+            pos = pos + gap if pos >= 0 else 0
             nsite_mols = w.choice([1, 1, 2, 3])
             umis = lib.umi_pool(w, nsite_mols)
             for m in range(nsite_mols):
                 cell = w.randrange(ncell)
-                rev = w.random() < 0.5
+                rev = w.random() < 0.5 if pos > 0 else False      # at the origin the read-1 side sits on base 0
                 copies = w.choice([1, 1, 2, 3, 5])
                 single = w.random() < 0.1
                 for c in range(copies):
@@ -96,12 +97,25 @@ def generate(seed, tier):
                     g['L'] = L
                     g['site'] = o['site']
             out.append(g)
+        if w.random() < 0.4 and len(out) >= 2:
+            # an ambiguous fragment: same start as one open molecule and same end as another (same cell, strand, UMI) - it must join the
+            # same one under every schedule (first compatible molecule in buffer order)
+            for _ in range(w.randint(1, 3)):
+                o1 = w.choice(out)
+                L2 = max(rl, min(maxL, w.randint(rl, max(rl, maxL))))
+                shift = w.randint(1, max(1, maxL // 3))
+                o2 = dict(o1, site=o1['site'] + shift if not o1['rev'] else o1['site'] - shift, L=L2, mol=20000 + len(out))
+                far2 = o2['site'] + o2['L'] if not o2['rev'] else o2['site'] - o2['L']
+                Lx = abs(far2 - o1['site'])
+                if rl <= Lx <= maxL and (far2 - o1['site'] > 0) == (not o1['rev']):
+                    out.append(o2)
+                    out.append(dict(o1, L=Lx, mol=30000 + len(out)))
         if ncontig > 1 and w.random() < 0.5:
             # the same coordinates, cell and UMI on another contig: still a different molecule
             for g in list(out):
                 if w.random() < 0.3:
                     out.append(dict(g, ctg=(g['ctg'] + 1) % ncontig, mol=10000 + g['mol']))
-        frags = [dict(g, n=i) for i, g in enumerate(out) if g['site'] - g['L'] > 10][:60]
+        frags = [dict(g, n=i) for i, g in enumerate(out) if min(v for v in lib.full_coords(g) if v is not None) >= 0][:60]
     layout = 'paired-short-reads'
     if w.random() < 0.3:
         # single-end long reads: the read IS the fragment; a single-end read arrives at its start and triggers the check at its end,
@@ -123,7 +137,7 @@ def generate(seed, tier):
                     else:
                         f['site'] = o['site']
                 byn[f['n']] = f
-        frags = [dict(g, n=i) for i, g in enumerate(frags) if g['site'] - g['L'] > 10]
+        frags = [dict(g, n=i) for i, g in enumerate(frags) if min(v for v in lib.full_coords(g) if v is not None) >= 0]
     return {'params': {'cache_size': cache, 'pooling': [0, 1], 'umi_hd': 0, 'kind': kind, 'layout': layout},
             'workload': frags,
             'schedules': [None] + list(range(0, len(frags) + 1)),
@@ -182,6 +196,8 @@ def execute(case):
             probe('same_coordinates_on_two_contigs')
     if p.get('layout') == 'single-end-long-reads':
         probe('single_end_long_reads')
+    if any(min(v for v in lib.full_coords(f) if v is not None) == 0 for f in frags):
+        probe('fragment_at_coordinate_0')
 
     # workload probe: a duplicate arrives after an unrelated molecule downstream became ejectable
     by_mol = {}
